@@ -99,7 +99,7 @@ func main() {
 func runProp(spec *PropSpec, tier, repo, verif, replayRule, replayConstruct, rulesOnly string) (code int) {
 	t0 := time.Now()
 	replayCmd := "bin/loxcheck -replay {path}"
-	c := &Ctx{Prop: spec.ID, Tier: tier}
+	c := &Ctx{Prop: spec.ID, Tier: tier, Verif: verif}
 	defer func() {
 		if r := recover(); r != nil {
 			fmt.Printf("checker panic: %v\n%s\n", r, debug.Stack())
